@@ -107,7 +107,7 @@ var c14KwWords []string
 
 // c14NearKeyword: a keyword with one letter glued to its front or back
 // ("Land", "shaving", "ands"), admitted only if it is not itself a table word.
-func c14NearKeyword(r *core.Rng) string {
+func c14KeywordWords() []string {
 	c14KwOnce.Do(func() {
 		for k, v := range keywords() {
 			if v != 'F' && len(k) >= 2 && len(k) <= 12 && !strings.ContainsAny(k, " .") && isLetter(k[0]) {
@@ -116,6 +116,68 @@ func c14NearKeyword(r *core.Rng) string {
 		}
 		sort.Strings(c14KwWords)
 	})
+	return c14KwWords
+}
+
+var c14LookOnce sync.Once
+var c14Look []string
+
+// c14Lookalikes: identifiers one small edit away from a keyword - digits for
+// look-alike letters (l1m1t, s3l3ct), one letter dropped, doubled or swapped
+// with its neighbour, a common suffix - that are not table words themselves.
+// A look-up that "repairs" or approximates its key reports these.
+func c14Lookalikes() []string {
+	c14LookOnce.Do(func() {
+		leet := map[byte]byte{'o': '0', 'i': '1', 'l': '1', 'e': '3', 'a': '4', 's': '5', 't': '7', 'b': '8', 'g': '9', 'z': '2'}
+		seen := map[string]bool{}
+		add := func(w string) {
+			if len(w) < 2 || seen[w] || !c14Admitted(w) {
+				return
+			}
+			for i := 0; i < len(w); i++ {
+				if !(isLetter(w[i]) || w[i] == '_' || w[i] >= '0' && w[i] <= '9') {
+					return
+				}
+			}
+			seen[w] = true
+			c14Look = append(c14Look, w)
+		}
+		for _, k := range c14KeywordWords() {
+			if len(k) < 3 {
+				continue
+			}
+			b := []byte(k)
+			all := []byte(k)
+			for i := 1; i < len(b); i++ {
+				if d, ok := leet[b[i]]; ok {
+					all[i] = d
+					one := []byte(k)
+					one[i] = d
+					add(string(one))
+					add(strings.ToUpper(string(one)))
+				}
+			}
+			add(string(all))
+			for i := 0; i < len(b); i++ {
+				add(k[:i] + k[i+1:])       // one letter dropped
+				add(k[:i+1] + k[i:])       // one letter doubled
+				if i+1 < len(b) && i > 0 { // neighbours swapped
+					add(k[:i] + string([]byte{b[i+1], b[i]}) + k[i+2:])
+				}
+			}
+			for _, sfx := range []string{"s", "ed", "ing", "er", "_id", "Id", "1", "2", "_", "x"} {
+				add(k + sfx)
+			}
+			add("x" + k)
+			add("_" + k)
+		}
+		sort.Strings(c14Look)
+	})
+	return c14Look
+}
+
+func c14NearKeyword(r *core.Rng) string {
+	c14KeywordWords()
 	for tries := 0; tries < 16; tries++ {
 		k := c14KwWords[r.Intn(len(c14KwWords))]
 		l := string([]byte{byte('a' + r.Intn(26))})
@@ -219,7 +281,7 @@ func c14Instantiate(shape string, r *core.Rng, words []string) string {
 func c14() *core.Check {
 	return &core.Check{
 		ID: "C14",
-		Rule: "G_benign against the LIVE keyword table: word = [A-Za-z_][A-Za-z0-9_]* from a frozen list (4000 English words in three capitalisations + identifier shapes of length 1-40), also behind 28 identifier prefixes (sp_, xp_, pg_, is_, ... one family per sequence) and mixed with marker-like words (sp_password, near-keywords) that is not a key, component or dotted prefix of a key; number = [0-9]+ incl. 31/32/33-digit runs; (1) the token-class abstraction exhaustively: all 62 sequences over {n,1} of length 1-5 must be absent from the live blacklist; (2) every sequence shape over {word,number} up to length 7 joined by single spaces, 64 (thorough 16384) random instantiations each; (3) e-mail / decimal / sentence shapes incl. apostrophes, near-keyword words (one letter glued to a keyword) and random identifiers (those not dropped by the one-time calibration), sampled; (4) 24 M (thorough 300 M) inputs built from distinct random identifiers between numbers. Oracle: IsSQLi = (false,\"\"). " +
+		Rule: "G_benign against the LIVE keyword table: word = [A-Za-z_][A-Za-z0-9_]* from a frozen list (4000 English words in three capitalisations + identifier shapes of length 1-40), also behind 28 identifier prefixes (sp_, xp_, pg_, is_, ... one family per sequence) and mixed with marker-like words (sp_password, near-keywords) that is not a key, component or dotted prefix of a key; number = [0-9]+ incl. 31/32/33-digit runs; (1) the token-class abstraction exhaustively: all 62 sequences over {n,1} of length 1-5 must be absent from the live blacklist; (2) every sequence shape over {word,number} up to length 7 joined by single spaces, 64 (thorough 16384) random instantiations each; (3) e-mail / decimal / sentence shapes incl. apostrophes, near-keyword words (one letter glued to a keyword) and random identifiers (those not dropped by the one-time calibration), sampled; (4) 24 M (thorough 300 M) inputs built from distinct random identifiers between numbers; (5) ~30 000 keyword look-alikes (digits for look-alike letters, one letter dropped / doubled / swapped, common suffixes; those that are not table words) in six frames; (6) one identifier of 2^k+d letters (k up to 16, d = -34..34, also 65568+d) whose tail spells a keyword. Oracle: IsSQLi = (false,\"\"). " +
 			"Non-trivial = every instance; distinct by string. The per-context fingerprints are recorded to show that the n/1 abstraction is what the implementation produced.",
 		Exhaustive: false,
 		Plan: func(tier string, seed uint64) []core.Unit {
@@ -238,6 +300,8 @@ func c14() *core.Check {
 				rid = 300000000
 			}
 			us = append(us, gen.RangeUnits("randid", rid, 100000, "")...)
+			us = append(us, gen.RangeUnits("lookalike", uint64(len(c14Lookalikes())), 2000, "")...)
+			us = append(us, gen.RangeUnits("longword", uint64(len(c14LongBounds)*69), 23, "")...)
 			return us
 		},
 		Gen: func(w *core.Worker, u core.Unit, emit func(core.Case)) {
@@ -282,6 +346,39 @@ func c14() *core.Check {
 						emit(core.Case{In: c14RandomIdent(r) + " " + c14RandomIdent(r) + " 7", Kind: "rid"})
 					default:
 						emit(core.Case{In: "3 " + c14RandomIdent(r) + " 4 " + c14RandomIdent(r) + " 5", Kind: "rid"})
+					}
+				}
+			case "lookalike":
+				la := c14Lookalikes()
+				r := core.NewRng(w.R.Seed, "c14look", fmt.Sprint(u.Lo))
+				for i := u.Lo; i < u.Hi && i < uint64(len(la)); i++ {
+					l := la[i]
+					n := c14Numbers[r.Intn(5)]
+					wd := c14Pick(r, words, 0)
+					for _, in := range []string{l + " " + n, n + " " + l + " " + n, wd + " " + l + " " + n, l + " " + l + " " + n, n + " " + l, l} {
+						emit(core.Case{In: in, Kind: "look"})
+					}
+				}
+			case "longword":
+				// one very long identifier whose tail spells a keyword, with the
+				// keyword starting at every offset around a power of two (+32: the
+				// word lexer's first window)
+				for i := u.Lo; i < u.Hi; i++ {
+					B := c14LongBounds[i/69]
+					d := int(i%69) - 34
+					if B+d < 1 {
+						continue
+					}
+					for ki, kw := range []string{"limit", "union", "select", "having", "or", "and"} {
+						if (int(i)+ki)%2 == 0 && B > 4096 {
+							continue
+						}
+						word := strings.Repeat("a", B+d) + kw
+						if !c14Admitted(word) {
+							continue
+						}
+						emit(core.Case{In: word + " 25", Kind: "longword"})
+						emit(core.Case{In: "7 " + word + " 3", Kind: "longword"})
 					}
 				}
 			case "shape":
@@ -385,6 +482,8 @@ func c14() *core.Check {
 		Assumptions: []string{"the family is defined against the live keyword table (read through the accessor); the e-mail/decimal/sentence shapes were calibrated once on the repaired tree"},
 	}
 }
+
+var c14LongBounds = []int{32, 64, 128, 256, 1024, 4096, 32768, 65536, 65568}
 
 type c14State struct {
 	n    int
@@ -623,7 +722,7 @@ func c19() *core.Check {
 							junk = stretchTo(junk, g04StretchLens[r.Intn(len(g04StretchLens))])
 						}
 					}
-					v := junk + encodeScheme(sc, r.U64(), inter, r.U64(), true, runLen) + []string{"x", "alert(1)", "", "//a", "text/html,x"}[r.Intn(5)]
+					v := junk + encodeScheme(sc, r.U64(), inter, r.U64(), true, runLen) + []string{"x", "alert(1)", "", "//a", "text/html,x", "image/svg+xml,<svg>", "image/png;base64,AAAA", "IMAGE/SVG+XML;base64,x", "http://x/", "msgbox(1)"}[r.Intn(10)]
 					emit(core.Case{In: v, Kind: "url", A: int64(r.Intn(1 << 20))})
 				}
 			}
